@@ -92,12 +92,14 @@ def build_cases(tier, seed):
     # no IMF cap: members (and the +/- pair of a flip member) may find different numbers of IMFs
     for si in range(b['signals']):
         for mode in ('single', 'flip'):
-            for sg in (0.2, 2.0):
+            for sg in (0.7, 2.0):
                 for E in (1, 2, 3) if tier == 'quick' else (1, 2, 3, 4, 5):
                     for P in (1, 2):
                         C, cs = nchunks(E, P)
                         for rgs in enum.restricted_growth_strings(C, P):
-                            out.append(('ens-nocap', si, E, P, mode, sg, rgs, seed))
+                            # several noise draws: about one flip member in seven finds more IMFs with +noise than with -noise
+                            for rs in range(6 if tier == 'quick' else 12):
+                                out.append(('ens-nocap', si, E, P, mode, (sg, rs), rgs, seed))
     for si in range(b['signals']):
         for (E, P) in b['ceemd']:
             for mode in ('single', 'flip'):
@@ -116,6 +118,8 @@ def decode_case(c):
     c = list(c)
     if c[0] != 'conformance':
         c[6] = tuple(c[6])
+        if isinstance(c[5], list):
+            c[5] = tuple(c[5])
     return tuple(c)
 
 
@@ -128,7 +132,10 @@ def run_controlled(case):
     import emd.sift as S
     kind, si, E, P, mode, sg, rgs, seed = case
     x = signal_of(si, seed)
-    np.random.seed(100 + seed)
+    rs = 0
+    if isinstance(sg, (tuple, list)):
+        sg, rs = sg
+    np.random.seed(100 + seed + 1000 * rs)
     cm = forkpool.ControlledMP([list(rgs)])
     with forkpool.installed(cm):
         try:
@@ -182,8 +189,10 @@ def check_case(case):
         validated, problems = real_pool_runs(case[1], case[2])
         return Outcome(cls='conformance', viols=[('conformance', p_) for p_ in problems[:1]], validated=validated)
     kind, si, E, P, mode, sg, rgs, seed = case
-    tag = '%s signal=%d E=%d P=%d mode=%s noise=%g schedule=%s' % (kind, si, E, P, mode, sg, list(rgs))
+    tag = '%s signal=%d E=%d P=%d mode=%s noise=%r schedule=%s' % (kind, si, E, P, mode, sg, list(rgs))
     res, cm, x = run_controlled(case)
+    if isinstance(sg, (tuple, list)):
+        sg = sg[0]
     N = len(x)
     viols = []
     nworkers_used = len(set(rgs))
@@ -330,7 +339,7 @@ def run(ctx):
     install_seams()
     caselist = build_cases(ctx.tier, ctx.seed)
     # determinism: the first schedules are executed twice and must give identical observations
-    for case in [c for c in caselist if c[5] > 0 and len(set(c[6])) > 1][:3]:
+    for case in [c for c in caselist if not isinstance(c[5], tuple) and c[5] > 0 and len(set(c[6])) > 1][:3]:
         a = check_case(case)
         b_ = check_case(case)
         if a.digest != b_.digest:
